@@ -10,7 +10,7 @@ Init == i \in 1..Len(Rec)
 Next == UNCHANGED i
 
 RECURSIVE ToNode(_)
-ToNode(x) == [k |-> x.k, name |-> x.name, attrs |-> {[n |-> x.attrs[j].n, v |-> x.attrs[j].v] : j \in 1..Len(x.attrs)},
+ToNode(x) == [k |-> x.k, name |-> x.name, attrs |-> {[n |-> x.attrs[j].n, v |-> x.attrs[j].v, ns |-> x.attrs[j].ns] : j \in 1..Len(x.attrs)},
               kids |-> [j \in 1..Len(x.kids) |-> ToNode(x.kids[j])], text |-> x.text]
 Forest(f) == [j \in 1..Len(f) |-> ToNode(f[j])]
 
